@@ -831,7 +831,7 @@ def judge_trace(ctx, case, obs, wf):
     exp = [[{"dt": t["dt"], "shape": list(t["shape"]), "data": list(t["data"])} for t in row] for row in case["exp"]]
     if obs["np"] != exp:
         mism.append(f"TLC's Replay {exp} differs from the NumPy replay {obs['np']}")
-    if obs["outcome"] != case["outcome"]:
+    if obs["outcome"] != case["outcome"] and not (case["outcome"] == "either" and obs["outcome"] in ("ok", "invalid")):
         mism.append(f"outcome: model {case['outcome']}, builder {obs['outcome']} ({obs['err']})")
     # ---- property
     if obs["outcome"] == "raise":
@@ -1068,6 +1068,8 @@ def run(ctx: core.Ctx):
             nmis += 1
             if nmis <= 12:
                 print(f"SPEC-MISMATCH C18 trace: {m}\n   program: {json.dumps(c['prog'])[:700]}", flush=True)
+        if mm and len(ctx.coverage.setdefault("mismatch_cases", [])) < 3:
+            ctx.coverage["mismatch_cases"].append({"what": mm, "case": c})
         if i % 400 == 0:
             ctx.sample({"program": c["prog"], "outcome": o["outcome"], "ort": o["ort"], "numpy": o["np"]}, limit=3)
     for i, (c, o) in enumerate(zip(trees, tobs)):
